@@ -18,6 +18,7 @@ use std::{cmp, thread};
 use std::fs::{self, canonicalize, create_dir_all, read_link, File, Metadata};
 use std::path::{Path, PathBuf};
 use std::sync::Arc;
+use std::sync::atomic::{AtomicBool, Ordering};
 
 use crossbeam_channel as cbc;
 use libfs::{
@@ -38,6 +39,7 @@ pub struct CopyHandle {
     pub outfd: File,
     pub metadata: Metadata,
     pub config: Arc<Config>,
+    finalised: AtomicBool,
 }
 
 impl CopyHandle {
@@ -59,6 +61,7 @@ impl CopyHandle {
             outfd,
             metadata,
             config: config.clone(),
+            finalised: AtomicBool::new(false),
         };
 
         Ok(handle)
@@ -127,6 +130,14 @@ impl CopyHandle {
         Ok(total)
     }
 
+    /// Apply metadata and sync options to the destination, reporting
+    /// any failure. If this is not called it is attempted (and errors
+    /// only logged) when the handle is dropped.
+    pub fn finalise(self) -> Result<()> {
+        self.finalised.store(true, Ordering::Relaxed);
+        self.finalise_copy()
+    }
+
     fn finalise_copy(&self) -> Result<()> {
         if !self.config.no_perms {
             copy_permissions(&self.infd, &self.outfd)?;
@@ -147,6 +158,9 @@ impl CopyHandle {
 
 impl Drop for CopyHandle {
     fn drop(&mut self) {
+        if self.finalised.load(Ordering::Relaxed) {
+            return;
+        }
         // FIXME: Should we check for panicking() here?
         if let Err(e) = self.finalise_copy() {
             error!("Error during finalising copy operation {:?} -> {:?}: {}", self.infd, self.outfd, e);
